@@ -158,6 +158,46 @@ def args_sites(ctx, fn: FuncInfo):
     return out
 
 
+def _classify_wrt_param(ctx, fn: FuncInfo, e: ast.expr, param: str, depth: int = 3) -> tuple[str, str]:
+    """Like classify_args_expr, but the original argument list is the parameter `param` (hooks like updated_args(original_args))."""
+    r = ctx.resolver(fn)
+    if depth <= 0:
+        return "unknown", unparse(e)[:40]
+    if isinstance(e, ast.Name):
+        if e.id == param:
+            return "complete", param
+        vals = [n.value for n in walk_no_nested(fn.node) if isinstance(n, ast.Assign) and any(isinstance(t, ast.Name) and t.id == e.id for t in n.targets)]
+        if vals:
+            vs = [_classify_wrt_param(ctx, fn, v, param, depth - 1) for v in vals]
+            return sorted(vs, key=lambda t: ["complete", "tail", "unknown", "partial", "dropped"].index(t[0]))[-1]
+        return "unknown", e.id
+    if isinstance(e, ast.Call) and call_name(e) in ("list", "tuple") and e.args:
+        return _classify_wrt_param(ctx, fn, e.args[0], param, depth - 1)
+    if isinstance(e, ast.Subscript) and isinstance(e.value, ast.Name) and (e.value.id == param or _classify_wrt_param(ctx, fn, e.value, param, depth - 1)[0] == "complete"):
+        if isinstance(e.slice, ast.Slice) and e.slice.upper is None and e.slice.lower is None:
+            return "complete", unparse(e)
+        if isinstance(e.slice, ast.Slice) and e.slice.upper is None:
+            return "tail", unparse(e)
+        return "partial", f"`{unparse(e)}` keeps only part of the original arguments"
+    if isinstance(e, ast.BinOp) and isinstance(e.op, ast.Add):
+        a = _classify_wrt_param(ctx, fn, e.left, param, depth - 1)
+        b = _classify_wrt_param(ctx, fn, e.right, param, depth - 1)
+        if "complete" in (a[0], b[0]) or "tail" in (a[0], b[0]):
+            return "complete", f"{a[1]} + {b[1]}"
+        return sorted([a, b], key=lambda t: ["complete", "tail", "unknown", "partial", "dropped"].index(t[0]))[-1]
+    if isinstance(e, (ast.List, ast.Tuple)):
+        full = any(isinstance(el, ast.Starred) and _classify_wrt_param(ctx, fn, el.value, param, depth - 1)[0] in ("complete", "tail") for el in e.elts)
+        part = any(param in {n.id for n in ast.walk(el) if isinstance(n, ast.Name)} for el in e.elts)
+        if full:
+            return "complete", "[*args, ...]"
+        return ("partial", f"`{unparse(e)[:60]}` keeps only part of the original arguments") if part else ("dropped", f"`{unparse(e)[:60]}` contains none of the original arguments")
+    if isinstance(e, (ast.ListComp, ast.GeneratorExp)):
+        g = e.generators[0]
+        if isinstance(g.iter, ast.Name) and g.iter.id == param and not g.ifs:
+            return "complete", "comprehension over all original args"
+    return "unknown", unparse(e)[:40]
+
+
 def rule_args_preserved(ctx, rep, rule_id: str, families: dict, statement: str, min_instances: int):
     rep.rule(rule_id, statement, min_instances)
     seen = set()
@@ -166,6 +206,14 @@ def rule_args_preserved(ctx, rep, rule_id: str, families: dict, statement: str, 
             if m.qname in seen:
                 continue
             seen.add(m.qname)
+            if m.name == "updated_args" and len(m.positional_params()) >= 2:
+                param = m.positional_params()[1]
+                for rn in walk_no_nested(m.node):
+                    if isinstance(rn, ast.Return) and rn.value is not None:
+                        verdict, why = _classify_wrt_param(ctx, m, rn.value, param)
+                        ok = verdict in ("complete", "tail", "unknown")
+                        rep.check(rule_id, tq, m.loc(rn), ok, f"{m.name}:{verdict}",
+                                  f"`{unparse(rn)[:60]}`: {why} (arguments after the rewritten one are silently dropped)", verdict=verdict)
             for site, aexpr in args_sites(ctx, m):
                 verdict, why = classify_args_expr(ctx, m, aexpr, site)
                 arity = None
